@@ -392,9 +392,11 @@ type c20World struct {
 type c20Expect struct {
 	worlds   []c20World
 	hasReset bool
-	// markerFail: "put"/"sync" when the write/sync of the active-slot marker at
-	// the end of a reset failed (attribution of a recorded finding only)
-	markerFail string
+	// markerPutFail / markerSyncFail: the write / the sync of the active-slot
+	// marker at the end of a reset of this epoch failed (injected error or
+	// cancelled context). Attribution of recorded findings only - see
+	// c20H.markerNote.
+	markerPutFail, markerSyncFail bool
 }
 
 func c20Allowed(a uint8, present bool, mandatory bool) uint8 {
